@@ -223,11 +223,24 @@ func (x *Exec) call(st *State, c *ast.CallExpr) []Value {
 		}
 	}
 	var args []Value
+	opaqueLit := false
 	sig := fn.Type().(*types.Signature)
 	for i, a := range c.Args {
 		v := x.expr(st, a)
 		if v.Fn != nil && v.Fn.Lit != nil {
-			v = x.closureFromLit(st, v)
+			if lit, ok := v.Fn.Lit.(*ast.FuncLit); ok && !isSingleReturnLit(lit) {
+				// a function literal with a body of statements handed to a callee:
+				// an opaque function value; whatever it may do when the callee runs it
+				// is accounted for by forgetting the whole heap after the call
+				x.vc.n++
+				v = Value{Ty: v.Ty, Fn: &Closure{Sym: fmt.Sprintf("fn!lit%d", x.vc.n), Sig: v.Fn.Sig}}
+				opaqueLit = true
+			} else {
+				v = x.closureFromLit(st, v)
+			}
+		}
+		if v.Fn != nil && v.Fn.Opaque {
+			opaqueLit = true
 		}
 		if v.Fn == nil {
 			var pt types.Type
@@ -247,7 +260,7 @@ func (x *Exec) call(st *State, c *ast.CallExpr) []Value {
 	if cal == nil && recv == nil && isStdScalarFunc(fn) {
 		return x.stdScalarCall(st, fn, args, c)
 	}
-	if cal != nil && cal.ct == nil && cal.pkg != nil && cal.pkg.FindFuncObj(cal.fn) != nil {
+	if cal != nil && cal.ct == nil && cal.pkg != nil && (cal.pkg.FindFuncObj(cal.fn) != nil || cal.iface) {
 		// a function of the repository without a contract: nothing is known
 		// about its result, and everything its body (transitively) may write is
 		// havocked - a sound over-approximation recorded per run. Obligations
@@ -272,6 +285,40 @@ func (x *Exec) call(st *State, c *ast.CallExpr) []Value {
 				st.assume(x.specEnv(st).evalBool(ab.Expr))
 			}
 		}
+		for ci, ab := range x.ct.AssertBefore {
+			if os.Getenv("GOVC_DEBUG") != "" {
+				fmt.Fprintf(os.Stderr, "assert-before %q vs callee %q\n", ab.Case, cal.key)
+			}
+			key, argT := ab.Case, ""
+			if i := strings.Index(key, "["); i >= 0 && strings.HasSuffix(key, "]") {
+				key, argT = key[:i], key[i+1:len(key)-1]
+			}
+			if key != cal.key {
+				continue
+			}
+			if argT != "" {
+				if len(args) == 0 || args[0].Ty == nil {
+					continue
+				}
+				tn := args[0].Ty.String()
+				if j := strings.LastIndex(tn, "."); j >= 0 {
+					tn = tn[j+1:]
+				}
+				if tn != argT {
+					continue
+				}
+			}
+			env := x.specEnv(st)
+			for i := range args {
+				env.vars[fmt.Sprintf("arg%d", i)] = args[i]
+			}
+			if x.callArgOrd == nil {
+				x.callArgOrd = map[int]int{}
+			}
+			n := x.callArgOrd[ci]
+			x.callArgOrd[ci] = n + 1
+			x.obligeNamed(st, fmt.Sprintf("callarg[%d.%d]", ci, n), "callarg", env.evalBool(ab.Expr), c.Pos(), ab.Text)
+		}
 	}
 	if cal.ct.Inline {
 		res := x.inlineCall(st, cal, recv, args, c.Pos())
@@ -283,6 +330,10 @@ func (x *Exec) call(st *State, c *ast.CallExpr) []Value {
 	res := x.applyContract(st, cal, recv, args, c.Pos())
 	if copyBack != nil {
 		copyBack()
+	}
+	if opaqueLit {
+		x.vc.havocAll(st, nil)
+		x.vc.abstractedCalls = append(x.vc.abstractedCalls, x.vc.fn+" -> "+cal.key+" (given a function literal with statements: heap forgotten after the call)")
 	}
 	if x.ct != nil {
 		for _, aa := range x.ct.AssumeAfter {
@@ -677,6 +728,14 @@ func (vc *VC) applyClosure(st *State, f Value, args []Value) Value {
 	rt := sig.Results().At(0).Type()
 	vc.declareFun(f.Fn.Sym, sorts, vc.sortOf(rt))
 	return Value{T: app(vc.sortOf(rt), f.Fn.Sym, ts...), Ty: rt}
+}
+
+func isSingleReturnLit(lit *ast.FuncLit) bool {
+	if len(lit.Body.List) != 1 {
+		return false
+	}
+	ret, ok := lit.Body.List[0].(*ast.ReturnStmt)
+	return ok && len(ret.Results) == 1
 }
 
 // closureFromLit turns a pure function literal (single return expression)
